@@ -52,3 +52,13 @@ def shared(ctx, rep):
                         f"{f.name} {s.why}: the circuit object is shared by all measurements of the tape, so every measurement processed afterwards "
                         "(and a later execution of the same prepared circuit) sees the extra instructions — wrong samples, parities and counts", line=s.line)
     rep.floor("routines receiving the shared Stim circuit", n, 8)
+
+
+def memos(ctx, rep):
+    from .. import memo
+
+    ix = ctx.index
+    rep.rule("R-C70-memo", "no function of default_clifford.py memoises a translation computed from an operator under a key that contains the operator only "
+             "through projections (name, wires): noise channels of one type on the same wires differ in their probabilities / Pauli words")
+    if not memo.report(ix, rep, "R-C70-memo", (MOD,), "operators"):
+        rep.proved("R-C70-memo", MOD, "no partial-key memo (a positive example is kept as a self-test variant)", nontrivial=False)
